@@ -376,18 +376,11 @@ def signature(printer, ans, f, info):
     if kind in ("lex", "read", "rejected") and len(parts) > 2:
         msg = unhx(parts[2])
         cls, tok = classify_msg(msg)
-        if kind == "rejected" and msg.startswith("command "):
-            pass
         sig["error"] = cls
         sig["token"] = tok
-        if cls == "lex" or (cls in ("undeclared", "redeclared") and info["unspeakable"]):
-            if info["unspeakable"]:
-                sig["name_class"] = "bar-or-backslash"
-            elif info["odd_sort_name"]:
-                sig["name_class"] = "sort-name-needs-quotes"
-        if cls in ("undeclared-sort", "other", "sort-redeclared") and info["odd_sort_name"]:
-            sig["name_class"] = "sort-name-needs-quotes"
-        if cls == "string-literal" or (kind == "value" and info["odd_string"]):
+        if (cls == "lex" or cls in ("undeclared", "redeclared")) and info["unspeakable"]:
+            sig["name_class"] = "bar-or-backslash"
+        if cls == "string-literal":
             sig["string_class"] = "non-ascii-or-escape"
     if kind == "value" and info["odd_string"]:
         sig["string_class"] = "non-ascii-or-escape"
